@@ -334,6 +334,8 @@ def write_evidence(a, P, unit_names, results, obligations, ndis, canary_log, kno
             solver_time_s=round(sum(o.get('secs', 0) for o in obligations), 3),
             per_unit=[dict(unit=r['unit'], case=r['case_desc'], paths=r['paths'], obligations=len(r['obligations']),
                            secs=round(r.get('secs', 0), 2), undecided=r['undecided']) for r in results],
+            functions_executed_inline=sorted(set(n.split(' ', 1)[1] for r in results for n in (r.get('notes') or [])
+                                                 if isinstance(n, str) and (n.startswith('executed-inline ') or n.startswith('auto-inlined ')))),
             canaries=canary_log,
             covers=[c for r in results for c in r.get('covers', [])][:50],
             known_findings=[k['id'] for o, k in known_hits],
